@@ -764,11 +764,11 @@ impl Property for C03 {
     fn budget(&self, tier: Tier) -> Budget {
         match tier {
             Tier::Quick => Budget {
-                runs: 150_000,
+                runs: 600_000,
                 watchdog_s: 60,
             },
             Tier::Thorough => Budget {
-                runs: 4_000_000,
+                runs: 20_000_000,
                 watchdog_s: 60,
             },
         }
